@@ -175,6 +175,36 @@ def foreign_variant(xml, rnd):
     return ET.tostring(root, encoding='unicode')
 
 
+def mutate_xml(xml, rnd):
+    """an invalid / unusual variant of a document (for the no-silent-loss half of C09)"""
+    root = ET.fromstring(xml)
+    els = list(root.iter())
+    for _ in range(rnd.randint(1, 2)):
+        el = rnd.choice(els)
+        r = rnd.random()
+        if r < 0.25:
+            el.set(rnd.choice(['content', 'level', 'xsd_check', '_x', 'foo', 'name', 'type', 'number', 'id']), rnd.choice(['1', 'x', 'yes', '']))
+        elif r < 0.4 and el.attrib:
+            k = rnd.choice(list(el.attrib))
+            el.set(k, rnd.choice(['', 'zzz', '-1', '1e3', '01', ' 1 ', 'NaN']))
+        elif r < 0.55:
+            ET.SubElement(el, rnd.choice(['foo', 'note', 'level', 'pitch', 'step', 'offset']))
+        elif r < 0.7 and len(el) == 0:
+            el.text = rnd.choice(['', 'zzz', '1_0', '١', '1e3', 'inf', ' 7 ', '0x10'])
+        elif r < 0.8 and len(el) > 1:
+            kids = list(el)
+            rnd.shuffle(kids)
+            for k in list(el):
+                el.remove(k)
+            for k in kids:
+                el.append(k)
+        elif r < 0.9 and len(el) > 0:
+            el.remove(rnd.choice(list(el)))
+        else:
+            el.set('font-size', rnd.choice(['12', '12.5', 'large', 'huge']))
+    return ET.tostring(root, encoding='unicode')
+
+
 def run_docs(drv, seed, n, tmpdir):
     """library-emitted documents (and foreign spellings of them) parsed back; returns stats + disagreements + oracle failures"""
     import collections
@@ -196,18 +226,20 @@ def run_docs(drv, seed, n, tmpdir):
         if s != 'ok':
             stats['not-serialisable'] += 1
             continue
-        for variant in (0, 1):
-            xml = text if variant == 0 else foreign_variant(text, rnd)
+        for variant in (0, 1, 2):
+            xml = text if variant == 0 else foreign_variant(text, rnd) if variant == 1 else mutate_xml(text, rnd)
             p = os.path.join(tmpdir, 'doc.xml')
             with open(p, 'w', encoding='utf-8') as f:
                 f.write('<?xml version="1.0" encoding="UTF-8"?>\n' + xml)
             c = compare_file(drv, p)
-            stats[('emitted' if variant == 0 else 'foreign') + ':' + c['status']] += 1
+            stats[('emitted' if variant == 0 else 'foreign' if variant == 1 else 'mutated') + ':' + c['status']] += 1
             if c['status'] == 'disagree':
                 dis.append({'engine': 'parser', 'xml': xml[:2000], 'model': c.get('model'), 'real': c.get('real')})
             rt = c.get('real_text')
             if variant == 0 and len(samples) < 3:
                 samples.append(xml[:300])
+            if variant == 2:
+                continue
             if rt is not None:
                 d = roundtrip_oracle(xml, rt)
                 stats['roundtrip-ok' if d is None else 'roundtrip-diff'] += 1
